@@ -52,7 +52,7 @@ relation and every LP `ℓ`: what the sequential run has dispatched to `ℓ` bel
 the optimistic LP has processed below `g`; and once the sequential run has nothing below `g` pending,
 the two sequences are equal and so are the LP states they produce.
 
-(The case where only V2 — not V2s — holds is open.) -/
+(The case where only V2 — not V2s — holds: see Props/C01GlueV2.lean — refuted for histories alone and for the content-level machine, proved for the machine with a ghost creation order.) -/
 theorem prefix_unique (H : Hist M G g) (V : V2sBelow M G g) (T : TimeMono M) {s : SeqState σ}
     (hr : Reachable M s) {ℓ : Nat} (hℓ : ℓ < M.nLps) :
     (s.disp ℓ).filter (below g) <+: (G ℓ).filter (below g) ∧
